@@ -772,6 +772,26 @@ impl<'r> Enc<'r> {
         }
     }
 
+    /// Operands that are integers by their nature (subroutine numbers, the count of `blend`, the
+    /// `vsindex` operand, the character codes of seac): integer encodings only. Interpreters that
+    /// keep the operand type (e.g. FreeType's `cf2_stack_popInt`) refuse a 16.16 number there, so a
+    /// 16.16 form is outside the unambiguous core.
+    fn num_int(&mut self, v: i64) {
+        let encs: Vec<cffw::NumEnc> = cffw::int_encodings(v).into_iter().filter(|e| *e != cffw::NumEnc::Five).collect();
+        if encs.is_empty() {
+            self.fail = Some("integer operand out of range".to_string());
+            return;
+        }
+        let enc = if self.rng.chance(3, 5) { encs[0] } else { *self.rng.pick(&encs) };
+        match Tok::int(v, enc) {
+            Some(t) => {
+                self.toks.push(t);
+                self.class(&format!("num:{}", enc.name()));
+            }
+            None => self.fail = Some("int encoding".to_string()),
+        }
+    }
+
     /// Arguments available to the next operator (the pending width takes one slot).
     fn avail(&self) -> usize {
         let w = if self.first_clear && self.width.is_some() { 1 } else { 0 };
@@ -825,7 +845,7 @@ impl<'r> Enc<'r> {
                     self.num(v.deltas.get(r).copied().unwrap_or(0));
                 }
             }
-            self.num(n as i64 * ONE);
+            self.num_int(n as i64);
             self.toks.push(Tok::blend(n, k));
             self.class("blend");
             if n > 1 {
@@ -1271,13 +1291,25 @@ impl<'r> Enc<'r> {
 
     fn glyph(&mut self, g: &Glyph) {
         if self.cff2 && g.explicit_vsindex {
-            self.num(g.vsindex as i64 * ONE);
+            self.num_int(g.vsindex as i64);
             self.toks.push(Tok::op(op::VSINDEX));
             self.class("op:vsindex");
         }
         if let Some(s) = &g.seac {
-            let vals = vec![s.adx.clone(), s.ady.clone(), Val::int(s.bchar as i64), Val::int(s.achar as i64)];
-            self.clear_op("endchar-seac", &vals, Tok::op(op::ENDCHAR), true);
+            // [w] adx ady bchar achar endchar (TN 5177 appendix C)
+            self.first_clear = false;
+            if let Some(w) = self.width.take() {
+                self.num(w * ONE);
+                self.class("width-prefix:endchar-seac");
+            } else {
+                self.class("seac:no-width");
+            }
+            self.num(s.adx.d);
+            self.num(s.ady.d);
+            self.num_int(s.bchar as i64);
+            self.num_int(s.achar as i64);
+            self.toks.push(Tok::op(op::ENDCHAR));
+            self.class("op:endchar-seac");
             self.class("seac");
             return;
         }
@@ -2551,6 +2583,69 @@ impl C18 {
                 }
                 if !g.all_integer() {
                     cx.class("values:non-integer");
+                }
+                if let Some(sc) = &g.seac {
+                    cx.class(if b.iso_adobe { "seac:isoadobe-charset" } else { "seac:custom-charset" });
+                    if sc.bchar > 228 || sc.achar > 228 {
+                        cx.class("seac:code>228");
+                    }
+                    if sc.base == sc.accent {
+                        cx.class("seac:accent-is-base");
+                    }
+                    let comp = |p: usize| b.slots[p].glyph.as_ref();
+                    let stems = |p: usize| comp(p).and_then(|g| g.hints.as_ref()).map_or(0, |h| h.hstems.len() + h.vstems.len());
+                    let masks = |p: usize| comp(p).and_then(|g| g.hints.as_ref()).map_or(false, |h| h.masks);
+                    if comp(sc.base).map_or(false, |g| g.width.is_some()) {
+                        cx.class("seac:base-with-width");
+                    }
+                    if comp(sc.accent).map_or(false, |g| g.width.is_some()) {
+                        cx.class("seac:accent-with-width");
+                    }
+                    if stems(sc.base) > 0 && masks(sc.accent) && (stems(sc.base) + stems(sc.accent) + 7) / 8 != (stems(sc.accent) + 7) / 8 {
+                        cx.class("seac:accent-hintmask-after-base-stems");
+                    }
+                    if [sc.base, sc.accent].iter().any(|&p| b.slots[p].stats.local_calls + b.slots[p].stats.global_calls > 0) {
+                        cx.class("seac:component-with-subrs");
+                    }
+                }
+                if b.flavour == Flavour::Cff2 {
+                    if g.contours.is_empty() {
+                        cx.class("cff2:empty-glyph");
+                    }
+                    if s.fd > 0 {
+                        cx.class("cff2:glyph-in-fd>0");
+                    }
+                    let blended = s.enc.as_ref().map_or(false, |e| e.classes.iter().any(|c| c == "blend"));
+                    let has_deltas = g.contours.iter().any(|c| c.start.iter().any(|v| v.has_deltas()) || c.segs.iter().any(|sg| sg.vals().iter().any(|v| v.has_deltas())));
+                    if blended && b.vstore.is_some() {
+                        if !g.explicit_vsindex {
+                            cx.class("blend:vsindex-from-private-dict");
+                            if b.fd_vsindex[s.fd] != 0 {
+                                cx.class("blend:vsindex-from-private-dict-nonzero");
+                            }
+                            if s.fd > 0 && b.fd_vsindex[s.fd] != b.fd_vsindex[0] {
+                                cx.class("blend:vsindex-of-fd>0-differs-from-fd0");
+                            }
+                        } else if g.vsindex != b.fd_vsindex[s.fd] {
+                            cx.class("blend:vsindex-operator-overrides-private-dict");
+                        }
+                    }
+                    if blended && has_deltas {
+                        for sc in &s.tuples {
+                            if sc.iter().any(|&x| x > 0.0 && x < 1.0) {
+                                cx.class("blend:scalar-fractional");
+                            }
+                            if sc.iter().any(|&x| x == 0.0) {
+                                cx.class("blend:scalar-zero");
+                            }
+                            if sc.iter().any(|&x| x == 1.0) {
+                                cx.class("blend:scalar-one");
+                            }
+                            if sc.len() >= 2 && sc.iter().any(|&x| x != sc[0]) {
+                                cx.class("blend:regions-with-distinct-scalars");
+                            }
+                        }
+                    }
                 }
             }
         }
